@@ -146,6 +146,7 @@ UNITS["store"] = {
         ("raw", "lemmas/mergelog_lemmas.rs", "lemma", {"mod": "bitcask"}),
         ("raw", "lemmas/durable_lemmas.rs", "lemma", {"mod": "bitcask"}),
         ("raw", "lemmas/size_lemmas.rs", "lemma", {"mod": "bitcask"}),
+        ("raw", "lemmas/crashmerge_lemmas.rs", "lemma", {"mod": "bitcask"}),
         ("repo", "src/storage/bitcask.rs", {"mod": "bitcask", "rules": STORE_RULES, "only": BITCASK_ONLY}),
     ],
     "mod_uses": {
